@@ -1,8 +1,8 @@
 /-
 C20 — hand model of the interval / composition / preset part of
   src/quantem/core/visualization/custom_normalizations.py
-(the *Stretch classes are NOT modelled by hand: Generated/Stretch.lean is regenerated from
-their source on every run).  Core Lean only; written once over `[Num R]`, executed at
+(the *Stretch classes and the element-wise part of `BaseInterval.__call__/inverse` are NOT modelled by
+hand: Generated/Stretch.lean is regenerated from their source on every run).  Core Lean only; written once over `[Num R]`, executed at
 `Float` by Driver/C20.lean, reasoned about at `ℝ` in Lemmas/Norm.lean and Props/C20.lean.
 
 Pixels are `Ext R` (`nan | negInf | posInf | fin x`) so that NaN/inf propagation is explicit
@@ -34,11 +34,10 @@ variable {R : Type} [Num R]
 values = np.subtract(values, vmin)
 if (vmax - vmin) != 0.0: np.true_divide(values, vmax - vmin, out=values)
 np.clip(values, 0.0, 1.0, out=values)
-``` -/
-def intervalFin (vmin vmax x : R) : R :=
-  let values := x - vmin
-  let values := if fne (vmax - vmin) (Num.ofRat 0) then values / (vmax - vmin) else values
-  Num.clip values (Num.ofRat 0) (Num.ofRat 1)
+```
+NOT written by hand: it is the text the tracer regenerates from `BaseInterval.__call__` on every run
+(`Generated/Stretch.lean`, `baseIntervalCall`); `NormLemmas.intervalFin_eq` ties it to the closed form. -/
+def intervalFin (vmin vmax x : R) : R := baseIntervalCall vmin vmax x
 
 /-- the same three statements on a NaN / ±inf pixel (finite limits): NaN stays NaN through
 subtract/divide/clip; `+inf - vmin = +inf`, dividing by a negative range flips the sign, the
@@ -49,8 +48,9 @@ def intervalExt (vmin vmax : R) : Ext R → Ext R
   | .posInf => if Num.ltb (vmax - vmin) (Num.ofRat 0) then .fin (Num.ofRat 0) else .fin (Num.ofRat 1)
   | .negInf => if Num.ltb (vmax - vmin) (Num.ofRat 0) then .fin (Num.ofRat 1) else .fin (Num.ofRat 0)
 
-/-- `BaseInterval.inverse`: `values * (vmax - vmin) + vmin` -/
-def intervalInverse (vmin vmax y : R) : R := y * (vmax - vmin) + vmin
+/-- `BaseInterval.inverse`: `values * (vmax - vmin) + vmin` — the traced text (`baseIntervalInverse`),
+tied to this closed form by `NormLemmas.intervalInverse_eq` -/
+def intervalInverse (vmin vmax y : R) : R := baseIntervalInverse vmin vmax y
 
 /-! ### get_limits -/
 
